@@ -15,6 +15,9 @@ GROUPS = {
     "dtype_isnone": dict(filter="k_dtype::isnone_", bounded=None),
     "dtype_cast": dict(filter="k_dtype::cast_", bounded=None),
     "dtype_sortcmp": dict(filter="k_dtype::sortcmp_", bounded=None),
+    "gen_range": dict(filter="k_gen::range_", bounded="BOUNDED: a, b, step symbolic i32 within +-2^8; complete over that band, both step directions"),
+    "gen_range_wide": dict(filter="k_gen::wide_range_", bounded="BOUNDED: a, b, step symbolic i32 within +-2^12; both step directions"),
+    "gen_linspace": dict(filter="k_gen::linspace_", bounded="a, b symbolic i32 within +-2^24, n <= 2^20"),
     "time_nat": dict(filter="k_time::nat_", bounded=None),
     "time_unit_identity": dict(filter="k_time::unit_identity", bounded=None),
     "time_components": dict(filter="k_time::time_components", bounded=None),
@@ -38,7 +41,7 @@ def _run(filters, extra=None, timeout=3600, jobs=16):
         cmd += ["--harness", f]
     if extra:
         cmd += extra
-    env = dict(os.environ, CARGO_NET_OFFLINE="true")
+    env = dict(os.environ, CARGO_NET_OFFLINE="true", RUSTFLAGS="--cfg tevec_verif")
     t0 = time.time()
     try:
         p = subprocess.run(cmd, cwd=KDIR, env=env, capture_output=True, text=True, timeout=timeout)
